@@ -5,6 +5,7 @@ import ast
 
 from ..algebra import NotPolynomial, Poly, ToPoly
 from ..report import AnalysisError
+from ..amatch import AM
 from ..srcmodel import norm
 from ..state import self_attr
 from . import c02, c20
@@ -58,7 +59,7 @@ def rule_a(ctx, init, tabs):
                 continue
             for ax, comp in enumerate(pair):
                 names = {x.id for x in ast.walk(comp) if isinstance(x, ast.Name)}
-                subs = {norm(x) for x in ast.walk(comp) if isinstance(x, ast.Subscript) and norm(x.value) in ("pv", "ov", "nv")}
+                subs = {norm(x) for x in ast.walk(comp) if isinstance(x, ast.Subscript) and norm(x.value) in (NAMES["pv"], NAMES["ov"], NAMES["nv"])}
                 wrong_idx = (j if ax == 0 else i) in names
                 wrong_sub = any(sn.endswith(f"[{1 - ax}]") for sn in subs)
                 if wrong_idx or wrong_sub:
@@ -69,20 +70,22 @@ def rule_a(ctx, init, tabs):
     for meth in ("__call__", "set_image"):
         f = m.method(k, meth)
         acc = sorted({norm(x) for x in ast.walk(f.node) if isinstance(x, ast.Subscript) and norm(x).startswith("self.patches[") and norm(x).count("[") == 2})
-        unp = [norm(s) for s in ast.walk(f.node) if isinstance(s, ast.Assign) and isinstance(s.targets[0], ast.Tuple)]
-        ctx.ob(R, f.qname, "addresses self.patches[i][j] with (i, j) = args", acc == ["self.patches[i][j]"] and unp == ["i, j = args"], f"{acc} {unp}", f.node)
+        am = AM(f)
+        unp = am.has(f.node, "r, c = args") is not None
+        ctx.ob(R, f.qname, "addresses self.patches[i][j] with (i, j) = args", unp and acc == [f"self.patches[{am.actual('r')}][{am.actual('c')}]"], f"{acc} {am.show()}", f.node)
     f = m.method(k, "assemble")
-    loops = [l for l in ast.walk(f.node) if isinstance(l, ast.For)]
-    ok = False
-    if len(loops) == 2:
-        outer = next(l for l in loops if any(isinstance(s, ast.For) for s in l.body))
-        inner = next(s for s in outer.body if isinstance(s, ast.For))
-        r, c = norm(outer.target), norm(inner.target)
-        txt = [norm(s) for s in ast.walk(outer) if isinstance(s, ast.Assign)]
-        ok = (norm(outer.iter) == "range(self.num_patches[0])" and norm(inner.iter) == "range(1, self.num_patches[1])"
-              and f"rel_roi = self.relative_rois_without_overlap[{r}][0]" in txt and f"assembled_y_j = self.patches[{r}][0].img[rel_roi]" in txt
-              and f"rel_roi = self.relative_rois_without_overlap[{r}][{c}]" in txt and f"assembled_y_j = np.hstack((assembled_y_j, self.patches[{r}][{c}].img[rel_roi]))" in txt
-              and "assembled_img = np.vstack((assembled_img, assembled_y_j))" in txt)
+    am = AM(f)
+    loops = [l for l in f.node.body if isinstance(l, ast.For)]
+    ok = len(loops) == 1 and am.eq(loops[0],
+        "for r in range(self.num_patches[0]):\n"
+        "    rel_roi = self.relative_rois_without_overlap[r][0]\n"
+        "    strip = self.patches[r][0].img[rel_roi]\n"
+        "    for c in range(1, self.num_patches[1]):\n"
+        "        rel_roi = self.relative_rois_without_overlap[r][c]\n"
+        "        strip = np.hstack((strip, self.patches[r][c].img[rel_roi]))\n"
+        "    whole = np.vstack((whole, strip))") \
+        and am.has(f.node, "whole = np.zeros((0, *self.base.img.shape[1:]), dtype=self.base.img.dtype)") is not None \
+        and am.has(f.node, "result = type(self.base)(img=whole, **self.base.metadata())") is not None and am.has(f.node, "return result") is not None
     ctx.ob(R, f.qname, "assemble: columns are concatenated horizontally inside, rows vertically outside, patches[row][col] throughout", ok, "", f.node)
 
 
@@ -147,7 +150,7 @@ def rule_c(ctx, init, tabs):
     ctx.ob(R, init.qname, "local voxel corners = global voxel corners - corner 0, for all four corners", ok, f"local {lv} global {gv}", st_lv)
     # order / orientation agreement: unclip min(nv, (k+1)*pv) -> (k+1)*pv
     I, J = Poly.atom(i), Poly.atom(j)
-    pv0, pv1 = Poly.atom("pv[0]"), Poly.atom("pv[1]")
+    pv0, pv1 = Poly.atom(f"{NAMES['pv']}[0]"), Poly.atom(f"{NAMES['pv']}[1]")
 
     def unclip(p):
         for a in list(p.atoms()):
@@ -160,7 +163,7 @@ def rule_c(ctx, init, tabs):
     T_i, _, _ = c20.extract_tables(ctx)
     xrow = T_i[("x", "ij")][1]  # (matrix position, reversed)
     yrow = T_i[("y", "ij")][1]
-    m0, m1 = Poly.atom("patch_dimensions_metric[0]"), Poly.atom("patch_dimensions_metric[1]")
+    m0, m1 = Poly.atom(f"{NAMES['pdm']}[0]"), Poly.atom(f"{NAMES['pdm']}[1]")
     ok = True
     desc = []
     for c in range(4):
@@ -195,7 +198,8 @@ def rule_c(ctx, init, tabs):
     ctx.ob(R, init.qname, "voxel centres are the voxels of the Cartesian centres in the base coordinate system", norm(elt) == f"self.base.coordinatesystem.voxel(self.global_centers_cartesian[{vi}, {vj}])", norm(elt), st)
     # provenance of the patch size
     env = {norm(s.targets[0]): s.value for s in ast.walk(init.node) if isinstance(s, ast.Assign) and isinstance(s.targets[0], ast.Name)}
-    pv_src = env.get(norm(env["pv"])) if "pv" in env and isinstance(env["pv"], ast.Name) else env.get("pv")
+    PV = NAMES["pv"]
+    pv_src = env.get(norm(env[PV])) if PV in env and isinstance(env[PV], ast.Name) else env.get(PV)
     lossy = pv_src is not None and any(isinstance(c, ast.Call) and norm(c.func).endswith("coordinatesystem.num_voxels") for c in ast.walk(pv_src))
     cart_from_vox = any("coordinatesystem.coordinate(" in norm(tabs[n][2]) for n in ("global_corners_cartesian",))
     ctx.instance(R)
@@ -219,13 +223,24 @@ def rule_d(ctx, init):
         ax = kw.get("axis", "")
         ln = kw.get("length", "")
         idx = ln[ln.rfind("[") + 1:-1] if ln.endswith("]") else "?"
-        ctx.ob(R, init.qname, f"num_voxels(length={ln}): axis is the Cartesian axis of matrix axis {idx}", ax == f"darsia.to_cartesian_indexing({idx}, indexing)" and env.get("indexing") == "self.base.indexing", ax, c)
+        ctx.ob(R, init.qname, f"num_voxels(length={ln}): axis is the Cartesian axis of matrix axis {idx}", ax == f"darsia.to_cartesian_indexing({idx}, {NAMES['indexing']})" and env.get(NAMES["indexing"]) == "self.base.indexing", ax, c)
     ctx.floor(R, 2)
+
+
+NAMES = {}
 
 
 def run(ctx):
     ctx.consult(MOD)
     init = ctx.model.func(MOD, "Patches.__init__")
+    # the short local names of the constructor are located through the attributes that mirror them / their defining expressions
+    am = AM(init)
+    found = [am.has(init.node, t) is not None for t in (
+        "self.nv = nv", "self.pv = pv", "self.ov = ov", "nv = self.base.num_voxels", "indexing = self.base.indexing",
+        "pdm = [self.base.dimensions[i] / self.num_patches[i] for i in range(self.num_active_spatial_axes)]")]
+    ctx.need(all(found), f"Patches.__init__: nv/pv/ov/indexing/patch size definitions not found ({found})")
+    NAMES.clear()
+    NAMES.update({k: am.actual(k) or k for k in ("nv", "pv", "ov", "indexing", "pdm")})
     tabs = table_comps(init)
     rule_a(ctx, init, tabs)
     rule_b(ctx, init, tabs)
